@@ -1,0 +1,247 @@
+// SPDX-License-Identifier: Apache-2.0
+//! Scripted-schedule seam (property C02, also C14): the real `build_work_units`, the real per-item
+//! execution (`execute_item_enforced`) and the real `merge_parallel_deltas`, with the atomic claim
+//! counter of `execute_work_queue` replaced by an explicit script `worker -> [unit index ...]`.
+//!
+//! Faithful because the workers of `execute_work_queue` share only the claim counter and an
+//! immutable `&GraphStore`; each worker owns a private `TickDelta`. The worker loop below is the
+//! loop of `execute_work_queue` with `fetch_add` replaced by the script iterator (early return on a
+//! missing store or a poisoned item included). `run_threads` is the unmodified
+//! `execute_work_queue` so a harness can compare both.
+use std::collections::BTreeMap;
+
+#[allow(unused_imports)]
+use crate::engine_impl::EngineError;
+use crate::footprint::Footprint;
+use crate::graph::GraphStore;
+use crate::ident::{NodeId, NodeKey, WarpId};
+use crate::parallel::{build_work_units, execute_work_queue, ExecItem, WorkUnit, WorkerResult};
+use crate::rule::ExecuteFn;
+use crate::tick_delta::{OpOrigin, TickDelta};
+use crate::tick_patch::WarpOp;
+use crate::warp_state::WarpState;
+
+/// Which merge path this build compiles into `merge_parallel_deltas`:
+/// `"A"` = `merge_deltas` (`delta_validate`), `"B"` = flatten / sort_unstable / windows / dedup.
+#[cfg(feature = "delta_validate")]
+pub const MERGE_VARIANT: &str = "A";
+#[cfg(not(feature = "delta_validate"))]
+pub const MERGE_VARIANT: &str = "B";
+
+/// Whether per-item footprint enforcement (guards, `catch_unwind`) is compiled in.
+pub const ENFORCED: bool = cfg!(all(
+    any(debug_assertions, feature = "footprint_enforce_release"),
+    not(feature = "unsafe_graph")
+));
+
+/// One accepted rewrite as `apply_reserved_rewrites` sees it after validation.
+pub struct ItemSpec {
+    pub warp: WarpId,
+    pub exec: ExecuteFn,
+    pub scope: NodeId,
+    pub origin: OpOrigin,
+    pub footprint: Footprint,
+    pub rule_name: &'static str,
+    pub system: bool,
+}
+
+/// Steps 1-2 of `apply_reserved_rewrites`: group by warp (`BTreeMap`, arrival order inside a
+/// warp), the real `build_work_units`, then guards exactly like `attach_footprint_guards`
+/// (metadata keyed by `(origin, NodeKey)`).
+pub fn build_units(items: Vec<ItemSpec>) -> Vec<WorkUnit> {
+    let mut by_warp: BTreeMap<WarpId, Vec<ExecItem>> = BTreeMap::new();
+    let mut meta: BTreeMap<(OpOrigin, NodeKey), (Footprint, &'static str)> = BTreeMap::new();
+    for it in items {
+        let key = NodeKey {
+            warp_id: it.warp,
+            local_id: it.scope,
+        };
+        meta.insert((it.origin, key), (it.footprint.clone(), it.rule_name));
+        #[cfg(all(
+            any(debug_assertions, feature = "footprint_enforce_release"),
+            not(feature = "unsafe_graph")
+        ))]
+        let item = if it.system {
+            ExecItem::new_system(it.exec, it.scope, it.origin)
+        } else {
+            ExecItem::new(it.exec, it.scope, it.origin)
+        };
+        #[cfg(not(all(
+            any(debug_assertions, feature = "footprint_enforce_release"),
+            not(feature = "unsafe_graph")
+        )))]
+        let item = ExecItem::new(it.exec, it.scope, it.origin);
+        by_warp.entry(it.warp).or_default().push(item);
+    }
+    #[allow(unused_mut)]
+    let mut units = build_work_units(by_warp);
+    #[cfg(all(
+        any(debug_assertions, feature = "footprint_enforce_release"),
+        not(feature = "unsafe_graph")
+    ))]
+    for unit in &mut units {
+        unit.guards = unit
+            .items
+            .iter()
+            .map(|item| {
+                let key = (
+                    item.origin,
+                    NodeKey {
+                        warp_id: unit.warp_id,
+                        local_id: item.scope,
+                    },
+                );
+                let (footprint, rule_name) = meta.get(&key).cloned().expect("guard metadata");
+                let is_system = item.kind == crate::parallel::ExecItemKind::System;
+                crate::footprint_guard::FootprintGuard::new(
+                    &footprint,
+                    unit.warp_id,
+                    rule_name,
+                    is_system,
+                )
+            })
+            .collect();
+    }
+    let _ = &meta;
+    units
+}
+
+/// `(warp, [(scope, origin)...])` per unit, in unit order.
+pub fn unit_shape(units: &[WorkUnit]) -> Vec<(WarpId, Vec<(NodeId, OpOrigin)>)> {
+    units
+        .iter()
+        .map(|u| {
+            (
+                u.warp_id,
+                u.items.iter().map(|i| (i.scope, i.origin)).collect(),
+            )
+        })
+        .collect()
+}
+
+/// The worker body of `execute_work_queue`, claiming `claims` instead of `next_unit.fetch_add(1)`.
+fn scripted_worker<'s>(
+    units: &[WorkUnit],
+    claims: &[usize],
+    resolve_store: &dyn Fn(&WarpId) -> Option<&'s GraphStore>,
+) -> WorkerResult {
+    let mut delta = TickDelta::new();
+    for &unit_idx in claims {
+        let unit = &units[unit_idx];
+        let Some(store) = resolve_store(&unit.warp_id) else {
+            return WorkerResult::MissingStore(unit.warp_id);
+        };
+        for (idx, item) in unit.items.iter().enumerate() {
+            match crate::parallel::echo_verif_execute_item_enforced(store, item, idx, unit, delta) {
+                Ok(next_delta) => {
+                    delta = next_delta;
+                }
+                Err(poisoned) => {
+                    return WorkerResult::Poisoned(poisoned);
+                }
+            }
+        }
+    }
+    WorkerResult::Success(delta)
+}
+
+/// One `WorkerResult` per scripted worker (`script[w]` = the unit indices worker `w` claims, in
+/// claim order). Workers run one after another: they share nothing mutable.
+pub fn run_scripted(
+    state: &WarpState,
+    units: &[WorkUnit],
+    script: &[Vec<usize>],
+) -> Vec<WorkerResult> {
+    script
+        .iter()
+        .map(|claims| scripted_worker(units, claims, &|w| state.store(w)))
+        .collect()
+}
+
+/// The unmodified `execute_work_queue` (real threads, atomic claim counter).
+pub fn run_threads(state: &WarpState, units: &[WorkUnit], workers: usize) -> Vec<WorkerResult> {
+    execute_work_queue(units, workers, |w| state.store(w))
+}
+
+/// Ops of a successful worker delta in emission order (`None` for poisoned / missing store).
+pub fn delta_ops(r: &WorkerResult) -> Option<Vec<WarpOp>> {
+    match r {
+        WorkerResult::Success(d) => Some(d.ops_ref().to_vec()),
+        _ => None,
+    }
+}
+
+pub fn result_class(r: &WorkerResult) -> &'static str {
+    match r {
+        WorkerResult::Success(_) => "success",
+        WorkerResult::Poisoned(_) => "poisoned",
+        WorkerResult::MissingStore(_) => "missingstore",
+    }
+}
+
+/// A poisoned worker result carrying `delta` (hand-built merge inputs).
+#[cfg(all(
+    any(debug_assertions, feature = "footprint_enforce_release"),
+    not(feature = "unsafe_graph")
+))]
+pub fn poisoned(delta: TickDelta) -> WorkerResult {
+    WorkerResult::Poisoned(crate::parallel::PoisonedDelta::new(
+        delta,
+        Box::new("echo_verif: scripted poison"),
+    ))
+}
+
+#[derive(Debug, Clone, PartialEq, Eq)]
+pub enum MergeOutcome {
+    Ok(Vec<WarpOp>),
+    Conflict,
+    NewWarp,
+    Poisoned,
+    MissingStore,
+    Other(String),
+}
+
+/// The real merge of the commit path. Default build: `engine_impl::merge_parallel_deltas`
+/// (a poisoned delta re-raises its panic, caught here). `delta_validate` build: the
+/// `MissingStore` conversion of `merge_parallel_deltas`, then `merge_deltas` directly so that the
+/// `MergeError` class stays visible (`merge_parallel_deltas` maps every class to one message).
+pub fn merge(results: Vec<WorkerResult>) -> MergeOutcome {
+    #[cfg(not(feature = "delta_validate"))]
+    {
+        let r = std::panic::catch_unwind(std::panic::AssertUnwindSafe(|| {
+            crate::engine_impl::echo_verif_merge_parallel_deltas(results)
+        }));
+        match r {
+            Err(_) => MergeOutcome::Poisoned,
+            Ok(Ok(ops)) => MergeOutcome::Ok(ops),
+            Ok(Err(EngineError::UnknownWarp(_))) => MergeOutcome::MissingStore,
+            Ok(Err(EngineError::InternalCorruption(m))) => {
+                if m.contains("conflicting ops share sort_key") {
+                    MergeOutcome::Conflict
+                } else if m.contains("write to new warp") {
+                    MergeOutcome::NewWarp
+                } else {
+                    MergeOutcome::Other(m.to_string())
+                }
+            }
+            Ok(Err(e)) => MergeOutcome::Other(format!("{e:?}")),
+        }
+    }
+    #[cfg(feature = "delta_validate")]
+    {
+        let mut deltas = Vec::new();
+        for r in results {
+            match r {
+                WorkerResult::Success(d) => deltas.push(Ok(d)),
+                WorkerResult::Poisoned(p) => deltas.push(Err(p)),
+                WorkerResult::MissingStore(_) => return MergeOutcome::MissingStore,
+            }
+        }
+        match crate::parallel::merge_deltas(deltas) {
+            Ok(ops) => MergeOutcome::Ok(ops),
+            Err(crate::parallel::MergeError::Conflict(_)) => MergeOutcome::Conflict,
+            Err(crate::parallel::MergeError::PoisonedDelta(_)) => MergeOutcome::Poisoned,
+            Err(crate::parallel::MergeError::WriteToNewWarp { .. }) => MergeOutcome::NewWarp,
+        }
+    }
+}
